@@ -292,8 +292,85 @@ def handleStaged (c : Json) : Json := Id.run do
   | some e => return mkObj [("error", jStr e)]
   | none => return mkObj [("model", jArr modelOut), ("spec", jArr specOut)]
 
+def transparentGroup : List String := ["trace", "timer", "count_calls", "deprecated", "trace_if_returns"]
+
+/-- `{"kind":"reent","body":…,"other":…,"layers":[…],"plan":[[ARGS…]…],"ops":[["invoke",ARGS] | ["call",ARGS] | ["await",k]…]}`: calls that
+    start while another call of the same decorated callable is open.  Invocation `i` of the body calls the decorated callable again
+    with every tuple of `plan[i]`.  `call` hands out what the callable returns (a coroutine object for coroutine functions: two calls
+    in flight), `await k` awaits the result of the k-th `call`.  Model: events, result and every counter after each operation.
+    Specification (stacks of transparent decorators only): the undecorated recursion `specReent` — result, body invocations, and the
+    running number of calls made, which is what every `count_calls` counter must show once no call is in flight. -/
+def handleReent (c : Json) : Json := Id.run do
+  let body := bodyOf (jF c "body")
+  let other := bodyOf (jF c "other")
+  let layersJ := jL (jF c "layers")
+  match buildStack other (.body body) (.body body) layersJ with
+  | .error e => return mkObj [("error", jStr e)]
+  | .ok (.error _, _) => return mkObj [("error", jStr "decoration failed")]
+  | .ok (.ok top, _) =>
+    let planL : List (List Args) := (jL (jF c "plan")).map (fun l => (jL l).map argsOf)
+    let plan : Nat → List Args := fun i => (planL[i]?).getD []
+    let fuel := planL.length + 1
+    let sem := callFuel top plan fuel
+    let cl := counterLayers top
+    let transparent := layersJ.all (fun l => transparentGroup.contains (jS (jF l "d")))
+    let mut w : World := ⟨0, 0⟩
+    let mut sw : World := ⟨0, 0⟩
+    let mut handles : List (Option (World → Out)) := []
+    let mut shandles : List (Option Args) := []      -- the specification's own view: coroutines of the undecorated function not yet awaited
+    let mut pending : Nat := 0
+    let mut evsAll : List Ev := []
+    let mut ncum : Nat := 0
+    let mut mout : List Json := []
+    let mut sout : List Json := []
+    for op in jL (jF c "ops") do
+      let tag := jTag op
+      let mut o : Out := (.ret .none, [], w)
+      let mut so : ROut := ⟨.none, [], 0, sw⟩
+      if tag == "await" then
+        let k := jN (jAt op 1)
+        match handles[k]? with
+        | some (some run) =>
+          o := run w
+          handles := handles.set k none
+        | _ => o := (.exc (.lib "TypeError"), [], w)
+        match shandles[k]? with
+        | some (some a) =>
+          so := specReent body plan fuel a sw
+          shandles := shandles.set k none
+          pending := pending - 1
+        | _ => so := ⟨.exc (.lib "TypeError"), [], 0, sw⟩
+      else
+        let a := argsOf (jAt op 1)
+        if tag == "call" then
+          o := sem a w
+          match o.1 with
+          | .ret (.coro run) => handles := handles ++ [some run]
+          | _ => handles := handles ++ [none]
+          -- an `async def` whose arguments bind hands out a coroutine and runs nothing yet
+          if body.isCoro && (bind body.sig a).isSome then
+            shandles := shandles ++ [some a]
+            pending := pending + 1
+            so := ⟨.coro, [], 0, sw⟩
+          else
+            shandles := shandles ++ [none]
+            so := specReent body plan fuel a sw
+        else
+          o := invokeSem sem a w
+          so := specReent body plan fuel a sw
+      w := o.2.2
+      sw := so.w
+      evsAll := evsAll ++ o.2.1
+      ncum := ncum + so.n
+      mout := mout ++ [mkObj [("evs", jArr (o.2.1.filterMap evJ)), ("res", tagJ o.1.tag),
+                              ("counters", jArr (cl.map (fun li => jInt (li.2 + sumIncr li.1 evsAll))))]]
+      sout := sout ++ [mkObj [("res", tagJ so.res), ("calls", jArr (so.calls.filterMap evJ)), ("n", jNat ncum), ("settled", jBool (pending == 0))]]
+    return mkObj [("model", mkObj [("ops", jArr mout), ("meta", jBool top.metaOk), ("coro", jBool top.isCoro)]),
+                  ("spec", if transparent then jArr sout else Json.null), ("specTwin", jArr sout)]
+
 def handle (c : Json) : Json :=
   if jS (jF c "kind") == "attrs" then handleAttrs c
+  else if jS (jF c "kind") == "reent" then handleReent c
   else if jS (jF c "kind") == "staged" then handleStaged c
   else handleCall c
 
